@@ -143,7 +143,91 @@ def check_case(ctx, pm, D, order_seed, tmpdir):
     if problems:
         ctx.violation("M5-file-roundtrip", "dump(path)/load(path) equals the string round trip", case,
                       observed=problems[:8], expected="no difference")
+    check_edit_after_reload(ctx, pm, D, ci2, cid, rng, case)
     return True
+
+
+def _find(ci, uid):
+    todo = list(ci.variants.variants.values())
+    while todo:
+        v = todo.pop()
+        if v.uid == uid:
+            return v
+        todo.extend(v.variants.values())
+    return None
+
+
+def check_edit_after_reload(ctx, pm, D, ci2, cid, rng, case):
+    """M6: the re-read object is a compose description like any other: edited (entries REMOVED, values changed) and written
+    again, it is read back as the edited description - nothing of the file it came from survives in it."""
+    import copy
+    D2 = copy.deepcopy(D)
+    edits = []
+    nodes = list(F.iter_nodes(D2["variants"]))
+    with_paths = [v for v in nodes if any(v["paths"].values())]
+    if with_paths:
+        v = rng.choice(with_paths)
+        cat = rng.choice(sorted(c for c, t in v["paths"].items() if t))
+        arch = rng.choice(sorted(v["paths"][cat]))
+        obj = _find(ci2, v["uid"])
+        if obj is not None and arch in getattr(obj.paths, cat):
+            del v["paths"][cat][arch]
+            del getattr(obj.paths, cat)[arch]
+            edits.append("path-entry-removed")
+            if not v["paths"][cat]:
+                edits.append("path-category-emptied")
+    parents = [v for v in nodes if v["children"] and any(not c["children"] for c in v["children"])]
+    if parents and rng.random() < 0.7:
+        par = rng.choice(parents)
+        child = rng.choice([c for c in par["children"] if not c["children"]])
+        obj = _find(ci2, par["uid"])
+        if obj is not None and child["id"] in obj.variants:
+            par["children"].remove(child)
+            del obj[child["id"]]
+            edits.append("leaf-child-removed")
+            if not par["children"]:
+                edits.append("only-child-removed")
+    if rng.random() < 0.5:
+        v = rng.choice(nodes) if nodes else None
+        if v is not None and v["arches"]:
+            a = sorted(v["arches"])[0]
+            v["paths"].setdefault("os_tree", {})[a] = "edited/%s/os" % a
+            obj = _find(ci2, v["uid"])
+            if obj is not None:
+                obj.paths.os_tree[a] = "edited/%s/os" % a
+                edits.append("path-entry-set")
+    if D2["compose"]["label"] is not None and rng.random() < 0.5:
+        D2["compose"]["label"] = None
+        D2["compose"]["final"] = False
+        ci2.compose.label = None
+        ci2.compose.final = False
+        edits.append("label-removed")
+    D2["compose"]["respin"] = (D2["compose"]["respin"] + 1) % 100
+    ci2.compose.respin = D2["compose"]["respin"]
+    if not edits:
+        return
+    for e in edits:
+        ctx.count("edit-after-reload-" + e)
+    case6 = dict(case, edited_after_reload=edits, D_after_edit=D2)
+    probs = []
+    try:
+        t3 = ci2.dumps()
+        ci4 = pm.ComposeInfo()
+        ci4.loads(t3)
+        obs4, _s = F.observe(ci4)
+        probs = F.diff(F.expected_obs(D2, cid), obs4)
+        if not probs:
+            fresh = F.build(pm, D2, None)
+            fresh.compose.id = cid
+            t_fresh = fresh.dumps()
+            if t_fresh != t3:
+                probs = ["the edited re-read object and a freshly built object with the same content write different text", _first_diff(t_fresh, t3)]
+    except Exception as e:
+        probs = ["raised %s: %s" % (type(e).__name__, str(e)[:200])]
+    ctx.monitor("M6-edited-after-reload", fired=bool(probs))
+    if probs:
+        ctx.violation("M6-edited-after-reload", "a re-read description that is edited and written again is read back as the edited "
+                      "description (removed paths and children stay removed)", case6, observed=probs[:8], expected="no difference")
 
 
 def _first_diff(a, b):
